@@ -1,8 +1,489 @@
-use crate::case::{Case, Outcome, SiteSel};
-use crate::keys::SimKey;
+//! C14: F-err — exactly one mutating filesystem call fails (no side effect); the damage must be
+//! confined to the operation that hit it. Oracle: per-key {old,new} uncertainty for the failed
+//! operation only; everything else exact; later operations and a clean reopen must succeed.
 
-pub fn run_err<K: SimKey>(_case: &Case, _site: &SiteSel, _errno: i32, _suffix_seed: u64) -> Outcome {
+use std::collections::BTreeSet;
+use std::ops::Bound;
+use std::panic::{catch_unwind, AssertUnwindSafe};
+
+use crate::case::{Case, Outcome, SiteSel};
+use crate::decode;
+use crate::exec::{fail, panic_msg, Failure, World};
+use crate::gen::{Op, B};
+use crate::interpose::{self, with_sim};
+use crate::keys::SimKey;
+use crate::modes::{traced_run, OPEN_OP};
+use crate::rng::{mix, Rng};
+use crate::seqrun::{finish_sim, fresh_dir, remove_dir};
+use crate::sim::Sim;
+
+type Poss = Vec<BTreeSet<Option<usize>>>;
+
+enum Raw<T> {
+    Ok(T),
+    Err(String),
+    Panic(String),
+}
+
+fn guarded<T>(f: impl FnOnce() -> Result<T, String>) -> Raw<T> {
+    match catch_unwind(AssertUnwindSafe(|| interpose::enter(f))) {
+        Ok(Ok(v)) => Raw::Ok(v),
+        Ok(Err(e)) => Raw::Err(e),
+        Err(p) => Raw::Panic(panic_msg(p)),
+    }
+}
+
+fn bound<K: Clone>(keys: &[K], b: B) -> Bound<K> {
+    match b {
+        B::U => Bound::Unbounded,
+        B::I(i) => Bound::Included(keys[i].clone()),
+        B::E(i) => Bound::Excluded(keys[i].clone()),
+    }
+}
+
+fn in_range(lo: B, hi: B, k: usize) -> bool {
+    (match lo {
+        B::U => true,
+        B::I(a) => k >= a,
+        B::E(a) => k > a,
+    }) && (match hi {
+        B::U => true,
+        B::I(b) => k <= b,
+        B::E(b) => k < b,
+    })
+}
+
+fn raw_put<K: SimKey>(w: &World<K>, k: usize, c: usize, chunks: &[usize], abort: bool) -> Raw<()> {
+    let cas = w.cas.as_ref().unwrap();
+    let key = w.keys[k].clone();
+    let data = w.contents[c].clone();
+    guarded(|| {
+        let mut tx = cas.put(key).map_err(|e| format!("put(): {e}"))?;
+        let mut off = 0;
+        for &n in chunks {
+            tx.write(&data[off..off + n]).map_err(|e| format!("write(): {e}"))?;
+            off += n;
+        }
+        if abort {
+            drop(tx);
+            Ok(())
+        } else {
+            tx.finish().map_err(|e| format!("finish(): {e} ({e:?})"))
+        }
+    })
+}
+
+pub fn run_err<K: SimKey>(case: &Case, site: &SiteSel, errno: i32, suffix_seed: u64) -> Outcome {
     let mut out = Outcome::default();
-    out.harness_error = Some("mode not implemented".into());
+    // ---- dry run: count the fallible mutating calls per operation --------------------------------
+    let mut t = traced_run::<K>(case, &mut out, false);
+    if let Some(f) = t.failure.take() {
+        out.violation = Some(f);
+    }
+    let mut sim = std::mem::replace(&mut t.sim, Sim::new(std::path::Path::new("/nonexistent"), 0));
+    let op_ranges = sim.op_fallible.clone();
+    finish_sim(&mut out, &mut sim, &t.base, true);
+    remove_dir(&t.base);
+    if out.violation.is_some() || out.harness_error.is_some() {
+        return out;
+    }
+    let wl = &case.workload;
+    // candidate sites: every fallible mutating call issued by the first open or by an operation
+    let mut all_sites: Vec<u64> = Vec::new();
+    for (op, a, b) in &op_ranges {
+        if *op == OPEN_OP || (*op as usize) < wl.ops.len() {
+            all_sites.extend(*a..*b);
+        }
+    }
+    all_sites.sort();
+    all_sites.dedup();
+    let sites: Vec<u64> = match site {
+        SiteSel::Sites(s) => s.clone(),
+        SiteSel::All { max, sseed } => {
+            if all_sites.len() <= *max as usize {
+                out.counters.exhaustive_cases += 1;
+                all_sites.clone()
+            } else {
+                out.counters.sampled_cases += 1;
+                let mut rng = Rng::new(*sseed);
+                let mut pick: BTreeSet<u64> = BTreeSet::new();
+                // always every call of the last two operations (roll-over / checkpoint paths are short)
+                if let Some((_, a, b)) = op_ranges.iter().rev().find(|(op, _, _)| (*op as usize) < wl.ops.len()) {
+                    pick.extend(*a..*b);
+                }
+                while pick.len() < *max as usize {
+                    pick.insert(*rng.pick(&all_sites));
+                }
+                pick.into_iter().collect()
+            }
+        }
+    };
+    for k in sites {
+        out.counters.err_sites += 1;
+        if let Some(f) = one_site::<K>(case, k, errno, mix(suffix_seed, k), &op_ranges, &mut out) {
+            out.violation = Some(f);
+            break;
+        }
+        if out.harness_error.is_some() {
+            break;
+        }
+    }
     out
+}
+
+fn one_site<K: SimKey>(case: &Case, site: u64, errno: i32, sseed: u64, op_ranges: &[(u32, u64, u64)], out: &mut Outcome) -> Option<Failure> {
+    let wl = &case.workload;
+    let base = fresh_dir();
+    let mut sim = Sim::new(&base, 11);
+    sim.mon.cas_immutable = true;
+    sim.mon.own = case.property.clone();
+    sim.mon.n = wl.cfg.n;
+    sim.plan.fail_at = Some(site);
+    // EMFILE only makes sense for calls that allocate a descriptor; otherwise use EIO
+    sim.plan.fail_errno = errno;
+    interpose::install(sim);
+    let mut w = World::<K>::new(&base, wl);
+    w.set_monitor_expectations = false;
+    let nk = w.keys.len();
+    let tag = format!("site={site} errno={errno}");
+    let faulted_op = op_ranges.iter().find(|(_, a, b)| site >= *a && site < *b).map(|(op, _, _)| *op).unwrap_or(OPEN_OP);
+    let mut result: Option<Failure> = None;
+    let mut poss: Poss = vec![[None].into_iter().collect(); nk];
+    let cfg = w.cfg.clone();
+
+    // helper closures -----------------------------------------------------------------------------
+    let fired = || with_sim(|s| s.fired_at.clone());
+    let vio = |class: &str, i: usize, msg: String| Some(fail(&["C14"], class, i, format!("{tag}: {msg}")));
+
+    'run: {
+        // ---- first open (may be the faulted operation) -----------------------------------------
+        with_sim(|s| s.begin_op(OPEN_OP));
+        let r = catch_unwind(AssertUnwindSafe(|| w.open_raw(&cfg)));
+        with_sim(|s| s.end_op());
+        match r {
+            Err(p) => {
+                result = vio("panic", 0, format!("open panicked: {}", panic_msg(p)));
+                break 'run;
+            }
+            Ok(Err(e)) => {
+                if fired().is_none() {
+                    result = Some(fail(&["C02"], "open-failed", 0, format!("{tag}: first open failed without a fault: {e}")));
+                    break 'run;
+                }
+                // the failed open is the confined operation: the next one must succeed
+                let r2 = catch_unwind(AssertUnwindSafe(|| w.open_raw(&cfg)));
+                match r2 {
+                    Ok(Ok(())) => {}
+                    Ok(Err(e2)) => {
+                        result = vio("reopen-failed", 0, format!("open failed because of the injected error ({e}) and the next open fails too: {e2} ({e2:?}); fault at {:?}", fired()));
+                        break 'run;
+                    }
+                    Err(p) => {
+                        result = vio("panic", 0, format!("open after a failed open panicked: {}", panic_msg(p)));
+                        break 'run;
+                    }
+                }
+            }
+            Ok(Ok(())) => {}
+        }
+        w.exact_files = fired().is_none();
+        // ---- the history -----------------------------------------------------------------------
+        for (i, op) in wl.ops.iter().enumerate() {
+            let is_faulted = faulted_op as usize == i && fired().is_none();
+            if !is_faulted && fired().is_none() {
+                // before the fault: exact oracles
+                if let Err(f) = w.step_checked(i, op) {
+                    // an oracle of another property tripped without any fault: not ours to report
+                    result = Some(f);
+                    break 'run;
+                }
+                for (ki, k) in w.keys.iter().enumerate() {
+                    poss[ki] = [w.model.get(k).copied()].into_iter().collect();
+                }
+                continue;
+            }
+            with_sim(|s| s.begin_op(i as u32));
+            let r = tolerant_op(&mut w, op, &mut poss, i, is_faulted, &tag);
+            with_sim(|s| s.end_op());
+            if fired().is_some() {
+                w.exact_files = false;
+            }
+            if let Err(f) = r {
+                result = Some(f);
+                break 'run;
+            }
+        }
+        if fired().is_none() {
+            // the site was not reached (possible when an earlier reopen changed the call count): nothing to judge
+            break 'run;
+        }
+        // ---- 2-6 further operations ------------------------------------------------------------
+        let mut rng = Rng::new(sseed);
+        let n_more = 2 + rng.below(5) as usize;
+        let nc = w.contents.len();
+        for j in 0..n_more {
+            let k = rng.below(nk as u64) as usize;
+            let op = match rng.below(8) {
+                0..=2 => {
+                    let c = rng.below(nc as u64) as usize;
+                    Op::Put { k, c, chunks: vec![w.contents[c].len()], abort: false }
+                }
+                3 => Op::Remove { k },
+                4 => Op::Get { k },
+                5 => Op::Checkpoint,
+                6 => {
+                    let (lo, hi) = crate::gen::gen_bound_pair(&mut rng, nk);
+                    Op::RemoveRange { lo, hi }
+                }
+                _ => Op::Get { k },
+            };
+            if let Err(f) = tolerant_op(&mut w, &op, &mut poss, wl.ops.len() + j, false, &tag) {
+                result = Some(f);
+                break 'run;
+            }
+        }
+        // ---- clean reopen, which must succeed --------------------------------------------------
+        w.readers.clear();
+        w.close();
+        let r = catch_unwind(AssertUnwindSafe(|| w.open_raw(&cfg)));
+        match r {
+            Err(p) => {
+                result = vio("panic", wl.ops.len(), format!("reopen panicked: {}", panic_msg(p)));
+                break 'run;
+            }
+            Ok(Err(e)) => {
+                result = vio("reopen-failed", wl.ops.len(), format!("after the failed call at {:?} and further successful operations, a clean reopen fails: {e} ({e:?})", fired()));
+                break 'run;
+            }
+            Ok(Ok(())) => {}
+        }
+        if let Err(f) = tolerant_audit(&w, &poss, wl.ops.len(), &tag) {
+            result = Some(f);
+            break 'run;
+        }
+        // ---- and the store stays usable --------------------------------------------------------
+        for j in 0..2 {
+            let k = rng.below(nk as u64) as usize;
+            let c = rng.below(nc as u64) as usize;
+            let op = if j == 0 { Op::Put { k, c, chunks: vec![w.contents[c].len()], abort: false } } else { Op::Remove { k } };
+            if let Err(f) = tolerant_op(&mut w, &op, &mut poss, wl.ops.len() + 10 + j, false, &tag) {
+                result = Some(f);
+                break 'run;
+            }
+        }
+        if let Err(f) = tolerant_audit(&w, &poss, wl.ops.len() + 12, &tag) {
+            result = Some(f);
+        }
+    }
+    w.readers.clear();
+    w.close();
+    let mut sim = interpose::uninstall().expect("sim");
+    if let Some((_, call, rel)) = &sim.fired_at {
+        out.fingerprints.push(crate::rng::mix_str(faulted_op as u64, &format!("{}:{}", call.name(), crate::sim::role_of(rel))));
+        *out.site_counts.entry(format!("fault:{}:{}", call.name(), crate::sim::role_of(rel))).or_insert(0) += 1;
+    }
+    out.faults.err_fired += sim.counts.err_fired;
+    out.counters.mutating_calls += sim.step;
+    out.counters.events += sim.events;
+    if let Some(e) = sim.harness_error.take() {
+        out.harness_error = Some(e);
+    } else if let Err(e) = sim.disk.fidelity(&base) {
+        out.harness_error = Some(format!("fidelity check failed (SimDisk != tmpfs): {e}"));
+    }
+    if result.is_none() {
+        if let Some(v) = sim.mon.take_own().or_else(|| sim.mon.take_foreign()) {
+            result = Some(Failure { props: vec![v.property], class: format!("{}:{}", v.monitor, v.class), op_index: 0, message: format!("{tag}: step {}: {}", v.step, v.message) });
+        }
+    }
+    remove_dir(&base);
+    result
+}
+
+/// execute `op` after (or as) the faulted operation; update the possibility sets
+fn tolerant_op<K: SimKey>(w: &mut World<K>, op: &Op, poss: &mut Poss, i: usize, faulted: bool, tag: &str) -> Result<(), Failure> {
+    let what = if faulted { "the faulted operation" } else { "a later operation" };
+    let vio = |class: &str, msg: String| fail(&["C14"], class, i, format!("{tag}: {} ({what}): {msg}", op.short()));
+    match op {
+        Op::Put { k, c, chunks, abort } => match raw_put(w, *k, *c, chunks, *abort) {
+            Raw::Ok(()) => {
+                if !*abort {
+                    poss[*k] = [Some(*c)].into_iter().collect();
+                }
+                Ok(())
+            }
+            Raw::Err(e) => {
+                if !faulted {
+                    return Err(vio("later-op-failed", format!("failed although the injected error hit an earlier operation: {e}")));
+                }
+                if !*abort {
+                    poss[*k].insert(Some(*c));
+                }
+                Ok(())
+            }
+            Raw::Panic(p) => Err(vio("panic", format!("panicked: {p}"))),
+        },
+        Op::Remove { k } => {
+            let cas = w.cas.as_ref().unwrap();
+            let key = w.keys[*k].clone();
+            match guarded(|| cas.remove(&key).map_err(|e| format!("{e} ({e:?})"))) {
+                Raw::Ok(b) => {
+                    if !poss[*k].iter().any(|v| v.is_some() == b) {
+                        return Err(vio("wrong-result", format!("remove returned {b} but the key's possible values are {:?}", poss[*k])));
+                    }
+                    // remove(k) == true logged a record after anything the failed operation may have
+                    // left behind, so the key is certainly absent from now on. remove(k) == false saw
+                    // the key absent and wrote nothing: the property still allows the failed
+                    // operation's new value to show up later (e.g. after reopening), so the
+                    // uncertainty of a key of the failed operation is kept as it is.
+                    if b {
+                        poss[*k] = [None].into_iter().collect();
+                    }
+                    Ok(())
+                }
+                Raw::Err(e) => {
+                    if !faulted {
+                        return Err(vio("later-op-failed", format!("failed although the injected error hit an earlier operation: {e}")));
+                    }
+                    poss[*k].insert(None);
+                    Ok(())
+                }
+                Raw::Panic(p) => Err(vio("panic", format!("panicked: {p}"))),
+            }
+        }
+        Op::RemoveRange { lo, hi } => {
+            let cas = w.cas.as_ref().unwrap();
+            let r = (bound(&w.keys, *lo), bound(&w.keys, *hi));
+            let idx: Vec<usize> = (0..w.keys.len()).filter(|k| in_range(*lo, *hi, *k)).collect();
+            let min: usize = idx.iter().filter(|k| !poss[**k].contains(&None)).count();
+            let max: usize = idx.iter().filter(|k| poss[**k].iter().any(|v| v.is_some())).count();
+            match guarded(|| cas.remove_range(r).map_err(|e| format!("{e} ({e:?})"))) {
+                Raw::Ok(n) => {
+                    if n < min || n > max {
+                        return Err(vio("wrong-result", format!("remove_range returned {n}, possible [{min},{max}]")));
+                    }
+                    // keys that were certainly present were removed with a logged record; for keys
+                    // of the failed operation we cannot tell whether this call saw them, so their
+                    // uncertainty is only widened by "absent", never collapsed (see Remove above)
+                    for k in idx {
+                        if poss[k].len() == 1 {
+                            poss[k] = [None].into_iter().collect();
+                        } else {
+                            poss[k].insert(None);
+                        }
+                    }
+                    Ok(())
+                }
+                Raw::Err(e) => {
+                    if !faulted {
+                        return Err(vio("later-op-failed", format!("failed although the injected error hit an earlier operation: {e}")));
+                    }
+                    for k in idx {
+                        poss[k].insert(None);
+                    }
+                    Ok(())
+                }
+                Raw::Panic(p) => Err(vio("panic", format!("panicked: {p}"))),
+            }
+        }
+        Op::Get { k } | Op::GetSize { k } | Op::GetRange { k, .. } | Op::OpenReader { k } => {
+            let cas = w.cas.as_ref().unwrap();
+            let key = w.keys[*k].clone();
+            match guarded(|| cas.get(&key).map_err(|e| format!("{e}"))) {
+                Raw::Ok(v) => {
+                    let got = v.as_ref().map(|b| w.contents.iter().position(|c| c.as_slice() == b.as_ref()));
+                    let ok = match got {
+                        None => poss[*k].contains(&None),
+                        Some(Some(c)) => poss[*k].iter().any(|p| p.is_some_and(|x| w.hashes[x] == w.hashes[c])),
+                        Some(None) => false,
+                    };
+                    if !ok {
+                        return Err(vio("wrong-value", format!("get returned {:?} bytes; possible values of the key: {:?}", v.map(|b| b.len()), poss[*k])));
+                    }
+                    Ok(())
+                }
+                Raw::Err(e) => Err(vio("unreadable", format!("a key's value cannot be read after the fault: {e}"))),
+                Raw::Panic(p) => Err(vio("panic", format!("panicked: {p}"))),
+            }
+        }
+        Op::Checkpoint => {
+            let cas = w.cas.as_ref().unwrap();
+            match guarded(|| cas.checkpoint().map_err(|e| format!("{e} ({e:?})"))) {
+                Raw::Ok(()) => Ok(()),
+                Raw::Err(e) => {
+                    if faulted {
+                        Ok(())
+                    } else {
+                        Err(vio("later-op-failed", format!("checkpoint failed although the injected error hit an earlier operation: {e}")))
+                    }
+                }
+                Raw::Panic(p) => Err(vio("panic", format!("panicked: {p}"))),
+            }
+        }
+        Op::Reopen | Op::ReopenFlipPreCreate | Op::ReopenWrongN { .. } | Op::ReopenWrongVersion { .. } => {
+            w.readers.clear();
+            w.close();
+            let cfg = w.cfg.clone();
+            let r = catch_unwind(AssertUnwindSafe(|| w.open_raw(&cfg)));
+            match r {
+                Err(p) => Err(vio("panic", format!("open panicked: {}", panic_msg(p)))),
+                Ok(Ok(())) => Ok(()),
+                Ok(Err(e)) => {
+                    if !faulted {
+                        return Err(vio("reopen-failed", format!("a clean reopen after the fault fails: {e} ({e:?})")));
+                    }
+                    // the faulted open is the confined operation; the next open must succeed
+                    let r2 = catch_unwind(AssertUnwindSafe(|| w.open_raw(&cfg)));
+                    match r2 {
+                        Ok(Ok(())) => Ok(()),
+                        Ok(Err(e2)) => Err(vio("reopen-failed", format!("open failed because of the injected error ({e}); the next open fails too: {e2} ({e2:?})"))),
+                        Err(p) => Err(vio("panic", format!("open panicked: {}", panic_msg(p)))),
+                    }
+                }
+            }
+        }
+        Op::DrainReaders | Op::Range { .. } | Op::Audit => Ok(()),
+    }
+}
+
+/// every key holds a possible value and is readable; refcounts/stats consistent with what is shown
+fn tolerant_audit<K: SimKey>(w: &World<K>, poss: &Poss, i: usize, tag: &str) -> Result<(), Failure> {
+    let vio = |class: &str, msg: String| fail(&["C14"], class, i, format!("{tag}: audit after the fault: {msg}"));
+    let obs = w.observe().map_err(|e| vio("unreadable", e))?;
+    let mut shown: Vec<Option<usize>> = vec![None; w.keys.len()];
+    for ((kb, h, sz), bh) in obs.items.iter().zip(obs.bytes_hash.iter()) {
+        let Some(ki) = w.keys.iter().position(|k| k.kb() == *kb) else {
+            return Err(vio("unknown-key", format!("iter() shows a key that was never written: {}", hex::encode(kb))));
+        };
+        let Some(c) = w.hashes.iter().position(|x| x == h) else {
+            return Err(vio("wrong-value", format!("key {ki} maps to a hash that is no content of this run")));
+        };
+        if *sz != w.contents[c].len() as u64 || *bh != Some(*h) {
+            return Err(vio("wrong-value", format!("key {ki}: recorded size or read bytes do not match its hash")));
+        }
+        shown[ki] = Some(c);
+    }
+    for (ki, v) in shown.iter().enumerate() {
+        let ok = match v {
+            None => poss[ki].contains(&None),
+            Some(c) => poss[ki].iter().any(|p| p.is_some_and(|x| w.hashes[x] == w.hashes[*c])),
+        };
+        if !ok {
+            return Err(vio("wrong-value", format!("key {ki} shows {v:?}, possible values {:?}", poss[ki])));
+        }
+    }
+    // C12 relative to what is shown
+    let mut expect: std::collections::BTreeMap<[u8; 32], u32> = Default::default();
+    for c in shown.iter().flatten() {
+        *expect.entry(w.hashes[*c]).or_insert(0) += 1;
+    }
+    let expect_v: Vec<([u8; 32], u32)> = expect.iter().map(|(h, c)| (*h, *c)).collect();
+    if obs.known_blobs != expect_v {
+        return Err(vio("refcounts", format!("known_blobs() {:?} inconsistent with the keys shown {:?}", crate::exec::brief_blobs(&obs.known_blobs), crate::exec::brief_blobs(&expect_v))));
+    }
+    // no referenced blob missing on disk
+    let missing: Vec<String> = with_sim(|s| expect.keys().map(|h| format!("db/cas/{}", decode::cas_rel_path(h))).filter(|p| s.disk.file(p).is_none()).collect());
+    if !missing.is_empty() {
+        return Err(vio("missing-blob", format!("referenced blobs missing from cas/: {missing:?}")));
+    }
+    Ok(())
 }
